@@ -485,7 +485,13 @@ class SpecEval:
         if name == 'bitand':
             # bitand(x, y): Go's x & y on non-negative operands - the same uninterpreted function the code translation uses
             x_, y_ = self.ev(args[0]), self.ev(args[1])
-            return SV(w.uf('bits_and', z3.IntSort(), z3.IntSort(), z3.IntSort())(x_.t, y_.t), 'int')
+            f_ = w.uf('bits_and', z3.IntSort(), z3.IntSort(), z3.IntSort())
+            if not getattr(self.V, '_bitand_axiom', False):
+                # x & y with y >= 0 lies in [0, y] (two's complement, any x); with x >= 0 too it is also <= x
+                self.V._bitand_axiom = True
+                bx_, by_ = z3.Ints('ba_x ba_y')
+                self.V.global_hyps.append(z3.ForAll([bx_, by_], z3.And(z3.Implies(by_ >= 0, z3.And(f_(bx_, by_) >= 0, f_(bx_, by_) <= by_)), z3.Implies(z3.And(bx_ >= 0, by_ >= 0), f_(bx_, by_) <= bx_)), patterns=[f_(bx_, by_)]))
+            return SV(f_(x_.t, y_.t), 'int')
         if name == 'parsesfloat':
             # parsesfloat(s): strconv.ParseFloat(s, 64) succeeds (the same uninterpreted predicate as the model of ParseFloat)
             v = self.ev(args[0])
@@ -537,23 +543,28 @@ class SpecEval:
             if len(params) != len(args):
                 raise SpecError('arity of ' + name)
             env2 = {}
-            # defines see only their parameters (plus globals), evaluated in the current heap
+            # defines see only their parameters (plus globals), evaluated in the current heap; type names in a define
+            # are those of the package whose contract file declares it
+            dpkg = (self.V.contracts.get('defpkg') or {}).get(name) or self.pkg
             for (pn, pt), aa in zip(params, args):
                 v = self.ev(aa)
-                ty = resolve_type(w, pt, self.pkg)
+                ty = resolve_type(w, pt, dpkg)
                 if v.ty == 'nil':
                     v = SV(w.zero(ty), ty)
                 env2[pn] = SV(v.t, ty)
-            r = self.sub(env=env2, results=None).ev(body)
-            rt = 'bool' if ret == 'bool' else resolve_type(w, ret, self.pkg)
+            sub_ = self.sub(env=env2, results=None)
+            sub_.pkg = dpkg
+            r = sub_.ev(body)
+            rt = 'bool' if ret == 'bool' else resolve_type(w, ret, dpkg)
             return SV(r.t, rt)
         sp = self.V.contracts['specs'].get(name)
         if sp is not None:
             params, ret = sp
             sorts = []
             ts = []
+            dpkg = (self.V.contracts.get('defpkg') or {}).get(name) or self.pkg
             for (pn, pt), aa in zip(params, args):
-                ty = resolve_type(w, pt, self.pkg)
+                ty = resolve_type(w, pt, dpkg)
                 v = self.ev(aa)
                 if v.ty == 'nil':
                     v = SV(w.zero(ty), ty)
@@ -563,7 +574,7 @@ class SpecEval:
                     t = z3.ToReal(t)
                 sorts.append(so)
                 ts.append(t)
-            rty = resolve_type(w, ret, self.pkg)
+            rty = resolve_type(w, ret, dpkg)
             f = w.uf('spec_' + name, *(sorts + [w.sort(rty)]))
             return SV(f(*ts), rty)
         raise SpecError('unknown function %s' % name)
